@@ -14,7 +14,9 @@ documented in utils.py:
                ConnectionRefusedError, BrokenPipeError, aiohttp.ClientOSError, aiohttp.ClientConnectorError) with
                an errno of the retryable list; TransientError; ClientPayloadError("Response payload is not
                completed"); any of these as __cause__ (depth 1..2, `raise X from Y`) of a plain exception
-  rate_limit   aiohttp / httpx 429; httpx 403 whose body contains 'rateLimitExceeded'
+  rate_limit   aiohttp / httpx 429; httpx 403 whose body contains 'rateLimitExceeded'; any of these as __cause__
+               (depth 1..2) of a plain exception -- both are also on is_transient_error's list, so the chain rule
+               applies to them
   limited      ConnectionResetError() / ConnectionRefusedError() without a retryable errno; httpx 400 with one of
                the two known bodies; a plain exception raised from one of the bare connection errors
   permanent    400/401/403/404 responses, ValueError, KeyError, OSError(ENOENT), PermissionError, a plain exception
@@ -34,9 +36,14 @@ c = 1000 * 2**min(n, 30) (2 us tolerance for the loop's 2**-20 s grid).  retry_a
 retry_all_errors_n_times(m) raises the m-th failure.  delay_ms_for_try / sleep_before_try are also probed
 directly with seeded (tries, base, max).  After an outer cancellation no further attempt may start.
 
-Not covered here: sync_retry_transient_errors (time.sleep is not available under simulation) and
-gear.database.retry_transient_mysql_errors (pymysql is an import stub in this sandbox; C27's world drives it
-through the fake driver).
+sync_retry_transient_errors is covered too: for the duration of the run the name `time` inside
+hailtop.utils.utils is a proxy whose sleep() records the requested delay (everything else passes through to the
+simulated clock); the blocking helper runs to completion inside one loop step around a scripted synchronous
+callable and every requested sleep is checked against the same window.  It has no limited-retry tier: a limited
+error among the first five failures may be retried or raised ("at most five retries"), later ones must be raised.
+
+Not covered here: gear.database.retry_transient_mysql_errors (pymysql is an import stub in this sandbox; C27's
+world drives it through the fake driver) and retry_response_returning_functions.
 
 Signature classes: C21/not_retried/<label>/<kind> (chains collapse to .../chained_cause),
 C21/retried/<permanent|limited_after_five|cancelled>, C21/wrong_exception, C21/wrong_result,
@@ -65,6 +72,12 @@ mutant of hailtop/utils/utils.py, every one caught; the unchanged tree is green)
   R18 ServerDisconnectedError not transient                not_retried/transient/server_disconnected
   R19 DEFAULT_MAX_DELAY_MS = 61_000                        delay_above_maximum/retry
   R20 retry_all_errors_n_times `tries > max_errors`        retry_all/retried/beyond_max_errors
+Independently seeded changes (tools/run_seeded.py <name> C21, quick tier), all exit 1:
+  C21-1 cap applied before the jitter                      delay_too_short/retry, /delay_ms_for_try, /sleep_before_try
+  C21-2 is_transient_error follows __context__             retried/permanent, sync/retried/permanent
+  C21-3 hailtop.httpx branch removed from is_transient_error   not_retried/rate_limit/chained_cause,
+        sync/not_retried/rate_limit/httpx_403_rate_limit, sync/not_retried/rate_limit/chained_cause
+        (missed by the first version of this scenario, which had neither chained rate-limit errors nor the sync helper)
 """
 import asyncio
 import errno
@@ -83,6 +96,8 @@ COMPONENTS = {
     'hailtop.utils.utils.is_transient_error / is_rate_limit_error / is_limited_retries_error': 'real',
     'hailtop.utils.utils.delay_ms_for_try / sleep_before_try': 'real',
     'hailtop.utils.utils.retry_all_errors / retry_all_errors_n_times': 'real',
+    'hailtop.utils.utils.sync_retry_transient_errors / sync_sleep_before_try': 'real',
+    'time.sleep as seen by hailtop.utils.utils': 'simulated: records the requested delay (blocking helper only)',
     'hailtop.httpx.ClientResponseError, aiohttp exception classes': 'real',
     'random.randrange (jitter)': 'simulated: draws from the run\'s choice stream',
     'asyncio event loop / clock (asyncio.sleep, time_msecs)': 'simulated (SimLoop, virtual time)',
@@ -180,6 +195,10 @@ def _families():
             chained.append((f'chain2_{k}', chain(Wrapped, c, 2)))
     rate = [('aiohttp_429', aio(429)), ('httpx_429', httpx(429, 'slow down')),
             ('httpx_403_rate_limit', httpx(403, '{"error": {"errors": [{"reason": "rateLimitExceeded"}]}}'))]
+    chained_rate = []
+    for k, c in rate:
+        chained_rate.append((f'chain1_{k}', chain(Wrapped, c, 1)))
+        chained_rate.append((f'chain2_{k}', chain(RuntimeError, c, 2)))
     bare_reset = ConnectionResetError
     bare_refused = ConnectionRefusedError
     limited = [('conn_reset_bare', bare_reset), ('conn_refused_bare', bare_refused),
@@ -203,7 +222,8 @@ def _families():
         ('context_only_timeout', context_only(asyncio.TimeoutError)),
         ('payload_other_message', lambda: aiohttp.ClientPayloadError('Not enough data to satisfy content length')),
     ]
-    return {'transient': transient, 'chained': chained, 'rate_limit': rate, 'limited': limited, 'permanent': permanent}
+    return {'transient': transient, 'chained': chained, 'rate_limit': rate, 'chained_rate': chained_rate,
+            'limited': limited, 'permanent': permanent}
 
 
 _FAMS = None
@@ -271,27 +291,51 @@ def run(ctx):
 
     saved = {k: getattr(_random, k) for k in ('randrange', 'random', 'uniform', 'randint')}
 
+    # -- the blocking helper's time.sleep -> recorded requests ------------------------------------------
+    import time as real_time  # what `time` names inside utils.py
+
+    class _TimeProxy:
+        """stands in for the `time` module inside hailtop.utils.utils for the duration of the run."""
+
+        def __getattr__(self, attr):
+            return getattr(real_time, attr)
+
+        @staticmethod
+        def sleep(seconds):
+            cur = st.get('sync_sleeps')
+            if cur is None:
+                raise RuntimeError(f'time.sleep({seconds}) outside a sync retry call')
+            cur[1].append(seconds)
+            log.add(cur[0], 'sync_sleep', int(round(seconds * 1000)))
+
     # -- one retry call ------------------------------------------------------------------------------
     def draw_script(s, helper):
         length = s.draw(max_len + 1)
         script = []
         for _ in range(length):
-            fam = ('transient', 'chained', 'rate_limit', 'limited', 'permanent', 'cancelled')[
-                s.weighted([10, 4, 2, 4, 1, 1 if helper != 'all' else 0])]
+            fam = ('transient', 'chained', 'rate_limit', 'limited', 'permanent', 'cancelled', 'chained_rate')[
+                s.weighted([10, 4, 2, 4, 1, 1 if helper != 'all' else 0, 2])]
             if fam == 'cancelled':
                 script.append(('cancelled', 'cancelled_error', asyncio.CancelledError))
                 continue
             kind, ctor = s.pick(fams[fam])
-            label = 'transient' if fam == 'chained' else fam
+            # a plain exception is labelled by its cause: the documented lists are applied along __cause__
+            label = {'chained': 'transient', 'chained_rate': 'rate_limit'}.get(fam, fam)
             script.append((label, kind, ctor))
         return script
 
-    def expected(script, helper, max_errors):
+    def expected(script, helper, max_errors, n_att_obs):
         """-> (n_invocations, index of the raised failure or None)."""
         for i, (label, _kind, _c) in enumerate(script):
             tries = i + 1
             if label == 'cancelled':
                 return tries, i
+            if helper == 'sync' and label == 'limited' and tries <= 5:
+                # the sync helper has no limited-retry tier; "at most five retries" allows giving up at once
+                if n_att_obs == tries:
+                    ctx.probe('sync_limited_raised_early')
+                    return tries, i
+                continue
             if helper == 'all':
                 continue
             if helper == 'all_n':
@@ -306,13 +350,13 @@ def run(ctx):
 
     async def one_call(k):
         s = ctx.stream(f'call{k}')
-        helper = ('plain', 'debug', 'delayed', 'all_n', 'all')[s.weighted([6, 2, 2, 1, 1])]
+        helper = ('plain', 'debug', 'delayed', 'all_n', 'all', 'sync')[s.weighted([6, 2, 2, 1, 1, 2])]
         max_errors = s.rint(1, 8)
         warn_delay = s.pick([0, 1500, 10_000_000])
         script = draw_script(s, helper)
         durs = [s.ticks(4) for _ in range(len(script) + 1)]
         sentinel = ('result', k)
-        rec = {'attempts': [], 'fails': [], 'exc_objs': [], 'cancel': None}
+        rec = {'attempts': [], 'fails': [], 'exc_objs': [], 'cancel': None, 'sleeps': [], 'mark': 0}
         name = f'r{k}'
         args_seen = []
 
@@ -336,8 +380,47 @@ def run(ctx):
             log.add(name, 'op_returns')
             return sentinel
 
-        n_exp, raised_idx = expected(script, helper, max_errors)
+        def sync_op(a, b=None):
+            args_seen.append((a, b))
+            i = len(rec['attempts'])
+            rec['attempts'].append((log.add(name, 'attempt', i + 1), now()))
+            if rec['fails']:
+                req = rec['sleeps'][rec['mark']:]
+                rec['mark'] = len(rec['sleeps'])
+                check_delay(name, len(rec['fails']), 0.0, sum(req), what='sync_retry')
+            if i > len(script):
+                flag('model', 'C21/attempt_after_success', f'{name}: attempt {i + 1} after the operation had returned')
+                return sentinel
+            if i < len(script):
+                label, kind, ctor = script[i]
+                e = ctor()
+                rec['exc_objs'].append(e)
+                rec['fails'].append((log.add(name, 'fail', i + 1, label, kind), now()))
+                ctx.fault(f'op.{label}')
+                raise e
+            log.add(name, 'op_returns')
+            return sentinel
+
         log.add(name, 'invoke', helper, len(script), max_errors if helper == 'all_n' else 0)
+        if helper == 'sync':
+            # blocking helper: it runs to completion inside this step; its time.sleep requests are recorded
+            ctx.probe('sync_helper')
+            st['sync_sleeps'] = (name, rec['sleeps'])
+            result = None
+            try:
+                result = U.sync_retry_transient_errors(sync_op, 'x', b=k)
+                outcome, outcome_exc = 'returned', None
+            except asyncio.CancelledError as e:
+                outcome, outcome_exc = 'cancelled', e
+            except Exception as e:  # pylint: disable=broad-except
+                outcome, outcome_exc = 'raised', e
+            finally:
+                st['sync_sleeps'] = None
+            n_att = len(rec['attempts'])
+            n_exp, raised_idx = expected(script, helper, max_errors, n_att)
+            judge(name, helper, script, rec, args_seen, sentinel, k, n_att, n_exp, raised_idx, outcome, outcome_exc,
+                  result)
+            return
         if helper == 'plain':
             coro = U.retry_transient_errors(op, 'x', b=k)
         elif helper == 'debug':
@@ -363,11 +446,12 @@ def run(ctx):
             task.cancel()
             return
         n_att = len(rec['attempts'])
-        if any(a != ('x', k) for a in args_seen):
-            flag('model', 'C21/arguments_not_passed_through', f'{name}: {args_seen[:3]}')
-            return
+        n_exp, raised_idx = expected(script, helper, max_errors, n_att)
         pfx = 'C21' if helper in ('plain', 'debug', 'delayed') else 'C21/retry_all'
         if rec['cancel'] is not None:
+            if any(a != ('x', k) for a in args_seen):
+                flag('model', 'C21/arguments_not_passed_through', f'{name}: {args_seen[:3]}')
+                return
             # outer cancellation: must end cancelled, nothing may start afterwards
             late = [a for a in rec['attempts'] if a[0] > rec['cancel'][0]]
             if late:
@@ -389,7 +473,16 @@ def run(ctx):
         else:
             outcome_exc = None
             outcome = 'returned'
+        judge(name, helper, script, rec, args_seen, sentinel, k, n_att, n_exp, raised_idx, outcome, outcome_exc,
+              task.result() if outcome == 'returned' else None)
+
+    def judge(name, helper, script, rec, args_seen, sentinel, k, n_att, n_exp, raised_idx, outcome, outcome_exc, result):
+        """compare one finished (not externally cancelled) call with the reference policy."""
         log.add(name, 'outcome', outcome, n_att)
+        if any(a != ('x', k) for a in args_seen):
+            flag('model', 'C21/arguments_not_passed_through', f'{name}: {args_seen[:3]}')
+            return
+        pfx = {'plain': 'C21', 'debug': 'C21', 'delayed': 'C21', 'sync': 'C21/sync'}.get(helper, 'C21/retry_all')
 
         def cls_of(i, retried):
             # stable classes: the exact kind matters for "not retried" (one classifier rule per kind); what is
@@ -422,7 +515,7 @@ def run(ctx):
                 flag('model', f'{pfx}/wrong_attempt_count', f'{name}: {n_att} attempts, expected {n_exp}')
             return
         if raised_idx is None:
-            if outcome != 'returned' or task.result() != sentinel:
+            if outcome != 'returned' or result != sentinel:
                 flag('model', f'{pfx}/wrong_result', f'{name}: expected the sentinel, got {outcome} {outcome_exc!r}')
                 return
             if script:
@@ -445,14 +538,14 @@ def run(ctx):
                 ctx.probe('permanent_raised_first_try' if raised_idx == 0 else 'permanent_after_retries')
                 if kind.startswith('context_only'):
                     ctx.probe('context_only_not_retried')
-            if label == 'limited':
+            if label == 'limited' and raised_idx >= 5:
                 ctx.probe('limited_sixth_failure_raised' if raised_idx == 5 else 'limited_later_failure_raised')
-        if helper in ('plain', 'debug', 'delayed'):
+        if helper in ('plain', 'debug', 'delayed', 'sync'):
             for i, (label, kind, _) in enumerate(script[:n_att - 1]):
                 if label == 'limited':
                     ctx.probe('limited_within_five_retried')
                 elif label == 'rate_limit':
-                    ctx.probe('rate_limit_retried')
+                    ctx.probe('chained_rate_limit_retried' if kind.startswith('chain') else 'rate_limit_retried')
                 elif kind.startswith('chain'):
                     ctx.probe('chained_cause_transient')
                 elif kind in ('conn_reset_errno', 'conn_refused_errno') and i + 1 > 5:
@@ -537,9 +630,11 @@ def run(ctx):
     for k2, f in (('randrange', sim_randrange), ('random', sim_random), ('uniform', sim_uniform),
                   ('randint', sim_randint)):
         setattr(_random, k2, f)
+    U.time = _TimeProxy()
     try:
         _res, outcome = simulate(ctx, main, max_steps=400_000)
     finally:
+        U.time = real_time
         for k2, f in saved.items():
             setattr(_random, k2, f)
         st['closed'] = True
